@@ -9,9 +9,10 @@ import evmsync_common as E
 PROP = "C05"
 
 PLAN = dict(
-    quick=dict(model=["EVMSyncC05.cfg"], gen="EVMSyncGenC05.cfg", edges=1200, walks=[("EVMSyncSimC05.cfg", 300)], l1=300),
+    quick=dict(model=["EVMSyncC05.cfg"], gen="EVMSyncGenC05.cfg", edges=1200, walks=[("EVMSyncSimC05.cfg", 300)], l1=300,
+               probes=[("EVMSyncF13probe.cfg", "NoSkip")]),
     thorough=dict(model=["EVMSyncC05T.cfg"], gen="EVMSyncGenC05T.cfg", edges=12000, walks=[("EVMSyncSimC05.cfg", 3000), ("EVMSyncSimC05L.cfg", 600)],
-                  l1=3000, model_timeout=3000, model_workers=12),
+                  l1=3000, model_timeout=3000, model_workers=12, probes=[("EVMSyncF13probe.cfg", "NoSkip")]),
     invariants=["Ordered", "Faithful", "NoSkip", "Converged", "RewindLow"],
     assumptions=[
         "environment moves (mine, finalize) are scheduled only immediately before a step that can observe them (hand-made "
